@@ -310,6 +310,9 @@ func (o *Overlay) checkPendingTreeMarshal(el *Roster) {
 		// add the tree into our "database"
 		o.RegisterTree(tree)
 	}
+	// the descriptions have been used: a later roster message must not store
+	// them again (e.g. after the tree has been removed)
+	delete(o.pendingTreeMarshal, el.ID)
 	o.pendingTreeLock.Unlock()
 }
 
